@@ -53,6 +53,10 @@ def qbytes_int_mm(activations: torch.Tensor, weights: torch.Tensor, output_scale
 def qbytes_int8pack_mm(activations: torch.Tensor, weights: torch.Tensor, output_scales: torch.Tensor) -> torch.Tensor:
     # torch._weight_int8pack_mm expects a vector of scales (one per output feature)
     output_scales = output_scales.flatten().expand(weights.shape[0]).contiguous()
+    if weights.data_ptr() % 16 != 0:
+        # torch._weight_int8pack_mm crashes on CPU when the weights are not aligned on 16 bytes,
+        # which happens with memory-mapped weights (safetensors)
+        weights = weights.clone()
     if activations.ndim == 2:
         return torch._weight_int8pack_mm(activations, weights, output_scales)
     else:
